@@ -111,6 +111,10 @@ fn run() {
                         "rep_rest_eq {}",
                         if states_equal_but_orders(&w.built.engine.state, rep.replica_engine_state()) { 1 } else { 0 }
                     ));
+                    // the property itself, evaluated on the two REAL states: the replica's orders equal the
+                    // engine's once in-flight request markers are set aside (computed from the lines just
+                    // printed: O(x) stays, C(x) is the open order under a cancel mark, F and C(-) are marks only)
+                    lines.push(format!("rep_sync {}", orders_in_sync(lines) as u8));
                 }
                 "rep_dup" | "rep_gap" => {
                     let w = world.as_ref().expect("init first");
@@ -191,6 +195,30 @@ fn run() {
     });
 }
 
+/// `ord<i> …` vs `rep_ord<i> …` of the current observation block, in-flight markers set aside
+fn orders_in_sync(lines: &[String]) -> bool {
+    let start = lines.iter().rposition(|l| l == "@").map(|i| i + 1).unwrap_or(0);
+    let strip = |l: &str| -> Vec<String> {
+        l.split_whitespace()
+            .skip(1)
+            .filter_map(|t| {
+                let (cid, st) = t.split_once(':')?;
+                let inner = st.strip_prefix("O(").or_else(|| st.strip_prefix("C("))?.strip_suffix(')')?;
+                (inner != "-").then(|| format!("{cid}:O({inner})"))
+            })
+            .collect()
+    };
+    let block = &lines[start..];
+    block.iter().filter(|l| l.starts_with("ord")).all(|l| {
+        let key = l.split_whitespace().next().unwrap();
+        let rep_key = format!("rep_{key}");
+        block
+            .iter()
+            .find(|r| r.split_whitespace().next() == Some(rep_key.as_str()))
+            .is_some_and(|r| strip(r) == strip(l))
+    })
+}
+
 // ------------------------------------------------------------------------------- generation
 
 fn gen_case(rng: &mut Rng, out: &mut Out, tier: &str) {
@@ -221,6 +249,12 @@ fn gen_case(rng: &mut Rng, out: &mut Out, tier: &str) {
         }
     };
     let mut known: Vec<(usize, u64)> = vec![];
+    // multi-step stories about ONE order (reported open, cancel requested twice, cancel rejected, ...)
+    // need the same order to be picked again and again: half of the picks go to a focus order
+    let focus_pct = *rng.pick(&[0u64, 50, 50, 75]);
+    let pick_known = |rng: &mut Rng, known: &Vec<(usize, u64)>| -> (usize, u64) {
+        if rng.chance(focus_pct) { known[0] } else { *rng.pick(known) }
+    };
     for step in 0..len {
         if rng.chance(45) {
             let mut reqs: Vec<String> = vec![];
@@ -231,7 +265,7 @@ fn gen_case(rng: &mut Rng, out: &mut Out, tier: &str) {
                 reqs.push(format!("o:{}:{ins}:{cid}:B:100:10", defs[ins].0));
             }
             if !known.is_empty() && rng.chance(40) {
-                let (ins, cid) = *rng.pick(&known);
+                let (ins, cid) = pick_known(rng, &known);
                 reqs.insert(0, format!("c:{}:{ins}:{cid}", defs[ins].0));
             }
             out.line(format!("algo {}", reqs.join(" ")).trim_end().to_string());
@@ -244,20 +278,20 @@ fn gen_case(rng: &mut Rng, out: &mut Out, tier: &str) {
                 format!("ev cmd_open o:{}:{i}:{cid}:B:100:10", defs[i].0)
             }
             12..=19 if !known.is_empty() => {
-                let (ins, cid) = *rng.pick(&known);
+                let (ins, cid) = pick_known(rng, &known);
                 format!("ev cmd_cancel c:{}:{ins}:{cid}", defs[ins].0)
             }
             20..=29 => format!("ev trading {}", if rng.chance(60) { "on" } else { "off" }),
             30..=52 if !known.is_empty() => {
-                let (ins, cid) = *rng.pick(&known);
+                let (ins, cid) = pick_known(rng, &known);
                 format!("ev snap {ins} {cid} 10 100 O {} {} {}", 1 + rng.below(2), rng.below(6), rng.pick(&[0, 5, 10]))
             }
             53..=58 if !known.is_empty() => {
-                let (ins, cid) = *rng.pick(&known);
+                let (ins, cid) = pick_known(rng, &known);
                 format!("ev snap {ins} {cid} 10 100 X 0 0 0")
             }
             59..=68 if !known.is_empty() => {
-                let (ins, cid) = *rng.pick(&known);
+                let (ins, cid) = pick_known(rng, &known);
                 format!("ev resp {ins} {cid} {}", if rng.chance(50) { "ok" } else { "err" })
             }
             69..=71 => "ev shutdown".into(),
